@@ -8,6 +8,7 @@
 package main
 
 import (
+	"bytes"
 	"bufio"
 	"encoding/json"
 	"flag"
@@ -169,14 +170,42 @@ type worker struct {
 	dead   bool
 }
 
+// tailBuf keeps the tail of a worker's stderr and, from the first line that
+// names a fault (race report, fatal error, panic) on, up to 128 KiB of what
+// follows: a race report followed by a long goroutine dump must not lose its
+// head (it did: a report was classified as a bare process death).
 type tailBuf struct {
-	mu  sync.Mutex
-	buf []byte
+	mu     sync.Mutex
+	buf    []byte
+	pin    []byte
+	pinned bool
 }
+
+var faultMarkers = [][]byte{[]byte("WARNING: DATA RACE"), []byte("fatal error:"), []byte("panic:"), []byte("unexpected fault address")}
 
 func (t *tailBuf) Write(p []byte) (int, error) {
 	t.mu.Lock()
+	if t.pinned {
+		if room := (128 << 10) - len(t.pin); room > 0 {
+			if len(p) < room {
+				room = len(p)
+			}
+			t.pin = append(t.pin, p[:room]...)
+		}
+	}
 	t.buf = append(t.buf, p...)
+	if !t.pinned {
+		first := -1
+		for _, m := range faultMarkers {
+			if i := bytes.Index(t.buf, m); i >= 0 && (first < 0 || i < first) {
+				first = i
+			}
+		}
+		if first >= 0 {
+			t.pinned = true
+			t.pin = append(t.pin, t.buf[first:]...)
+		}
+	}
 	if len(t.buf) > 64<<10 {
 		t.buf = t.buf[len(t.buf)-(32<<10):]
 	}
@@ -187,6 +216,9 @@ func (t *tailBuf) Write(p []byte) (int, error) {
 func (t *tailBuf) String() string {
 	t.mu.Lock()
 	defer t.mu.Unlock()
+	if t.pinned && !bytes.Contains(t.buf, t.pin[:min(len(t.pin), 64)]) {
+		return string(t.pin) + "\n[...]\n" + string(t.buf)
+	}
 	return string(t.buf)
 }
 
